@@ -54,14 +54,19 @@ PROP = {'gen': [],
                'EraseChars leaves ferase(pen) = background only, clipped, cursor unmoved; CUP row clamp; images do not alter cells; an '
                'overwritten wide half leaves an Orphan cell that no surface denotes); hand-written model Render/Frame.v validated by '
                'the correspondence run; oracle_ok (space is one column wide, a default blank is an untouched cell, erasable faces erase '
-               'like spaces); ten fix: commits in the crate (incl. three follow-ups after an audit) (marks reset after use / force_repaint flag, wide-character extent, Option-tracked face/cursor, '
+               'like spaces); ten fix: commits in the crate, hashes as on /repo main: a440c10+e0b5bd4, 95ca8bb, 55d8917, 6af61c9, e6568d9+4881348, 432a209 superseded by 555d560, 93ac8da (marks reset after use / force_repaint flag, wide-character extent, Option-tracked face/cursor, '
                'run_render drops and clears before the handler draws (clear() itself resets the surface, as documented) and before it '
                'handles a Resize event (93ac8da: the image erases of that clear() were dropped), '
                'no EraseChars for faces with underline/strike/reverse, hidden wide characters '
                'do not own the column behind them and damage it only when their cover was repainted). Render/Loop.v takes from Props/C16.v (C16_frames, C16_frames_flush_delimited, '
-               'C16_render_loop_schema) the interface of the output queue: chunks delimited by flush/poll, delivered in order and '
+               'C16_render_loop_schema, C16_queue_drop) the interface of the output queue: chunks delimited by flush/poll, delivered in order and '
                'whole, frames_drop discards only whole chunks never seen by the tty (modelled: a drop keeps a prefix of the queue). '
-               'translate/c01const.py regenerates TERMINAL_FRAMES_DROP and checks the shape of the comparison. No axioms (Print Assumptions: closed for all theorems).',
+               'translate/c01const.py regenerates TERMINAL_FRAMES_DROP and checks the shape of the comparison. No axioms (Print Assumptions: closed for all theorems). '
+               'Limits: not modelled - command bytes (C05), image protocols, glyph pixels, a Terminal whose execute() fails (error exits of '
+               'frame(), the error-cleanup branch of run_render), a resize to another size while frames are pending; changes that alter the '
+               'command list but not the picture (EraseChars threshold, command order) are reported as broken correspondence without a '
+               'failing input; changes visible only between an overlapping frame and the next forced repaint are detected as model != code only. '
+               'Seeded changes C01_a..d: all caught with failing inputs.',
  'technique': 'Coq proof (invariant over histories; last-writer-wins fold invariant for pass 1; order-free "a correct cell stays correct" '
               'argument for passes 2 and 3) + model/implementation correspondence on command lists + reference-terminal predicate on the '
               'implementation\'s commands',
@@ -73,13 +78,15 @@ PROP = {'gen': [],
  'trusted_base': [KERNEL,
                   'reference terminal Render/Screen.v (exec): xterm/kitty meaning of Char, Face, CursorTo, EraseChars, Image, ImageErase; '
                   'the naive painter show is the specification of "repainting from scratch"',
-                  'hand-written model Render/Frame.v of TerminalRenderer::{new, surface, frame, clear} (cell_extent, marks, three passes, '
-                  'flip), tied to the code by the correspondence run on exact command lists',
+                  'hand-written models Render/Frame.v of TerminalRenderer::{new, surface, frame, clear} (cell_extent, marks, three passes, '
+                  'flip) and Render/Loop.v of Terminal::run_render (poll, frames_pending/frames_drop, clear, Resize event, handler, frame), '
+                  'tied to the code by the correspondence run on exact command lists (real run_render on a scripted queue)',
                   'oracle tables (display width of the pool characters, image sizes in cells, glyph image identity) computed by the harness '
                   'independently of the crate',
                   HARNESS],
- 'assumptions': ['the terminal executes exactly the commands the renderer issued; output dropped by frames_drop is covered only through '
-                 '"arbitrary previous screen" (C01_forced, C01_clear_then_frame, Resize)',
+ 'assumptions': ['histories (C01_history*, C01_scratch): the terminal executes exactly the commands the renderer issued; output dropped by '
+                 'frames_drop is covered by the render-loop theorems (chunks executed whole or not at all) and by "arbitrary previous '
+                 'screen" (C01_forced, C01_clear_then_frame, Resize); a terminal whose execute() fails is not modelled',
                  'oracle_ok: a space has display width 1; a blank in the default face is an untouched cell; the faces the renderer '
                  'treats as erasable erase like printed spaces. Characters of width 0 and wide characters in the last column are '
                  'outside the domain',
